@@ -439,6 +439,7 @@ int cmdInfo(int argc, char** argv) {
   auto arr = [](const std::vector<std::string>& v) { std::string s = "["; for (size_t i = 0; i < v.size(); ++i) { if (i) s += ","; s += "\"" + jesc(v[i]) + "\""; } return s + "]"; };
   printf("{\"id\":\"%s\",\"real\":%s,\"stub\":%s,\"rule\":\"%s\",\"sim_time\":\"%s\",\"fault_kinds\":%s,\"probe_names\":%s,\"assumptions\":%s,\"ubsan_gates\":%s,",
          h->id(), arr(in.real).c_str(), arr(in.stub).c_str(), jesc(in.rule).c_str(), jesc(in.simTime).c_str(), arr(in.faultKinds).c_str(), arr(in.probeNames).c_str(), arr(in.assumptions).c_str(), in.ubsanGates ? "true" : "false");
+  printf("\"cpu_limit_factor\":%d,", in.cpuLimitFactor);
   printf("\"tolerances\":{"); bool f = true; for (auto& kv : in.tolerances) { if (!f) printf(","); f = false; printf("\"%s\":\"%s\"", jesc(kv.first).c_str(), jesc(kv.second).c_str()); } printf("},");
   printf("\"runs\":{\"quick\":%ld,\"thorough\":%ld},\"enum\":{\"quick\":%ld,\"thorough\":%ld}}\n", h->defaultRuns(QUICK), h->defaultRuns(THOROUGH), h->enumCount(QUICK), h->enumCount(THOROUGH));
   return 0;
